@@ -170,7 +170,7 @@ def _explore(task):
         _current_mut[0] = task.get('mutation')
     unit = mod.UNITS[task['unit']]
     shape = unit.shapes(task['tier'])[task['shape_i']]
-    prover = Prover(task['timeout_ms'], task['cli_timeout_s'])
+    prover = Prover(getattr(unit, 'z3_timeout_ms', None) or task['timeout_ms'], task['cli_timeout_s'])
     res = {'paths': 0, 'obligations': 0, 'discharged': 0, 'failures': [], 'undecided': [], 'covers': set(), 'canary_ok': [], 'canary_bad': [],
            'samples': [], 'outcomes': {}, 'split': None, 'cut': 0}
     todo = [list(task['prefix'])]
